@@ -78,9 +78,13 @@ void
 env_step(void)
 {
     if (!armed) return;
-    unsigned char t0 = ch.is_accepting_writes;
-    size_t t1 = ch.head, t2 = ch.holds.pos[0], t3 = ch.holds.cycles[0], t4 = ch.cycle, t5 = ch.capacity;
-    (void)t0; (void)t1; (void)t2; (void)t3; (void)t4; (void)t5;
+    /* self-assignments: the instrumentation places a call before every main-flow READ of a
+     * variable the handler WRITES */
+    ch.is_accepting_writes = ch.is_accepting_writes;
+    ch.head = ch.head;
+    ch.holds.pos[0] = ch.holds.pos[0];
+    ch.holds.cycles[0] = ch.holds.cycles[0];
+    ch.cycle = ch.cycle;
     env_fp();
 }
 /* one atomic step of some other thread */
@@ -182,9 +186,12 @@ main(void)
 #else
     VASSERT(p != 0, "C03: write_map returned no region although writes are accepted");
 #endif
-    COVER(verif_wait_count >= 1 && p != 0);
-    COVER(verif_wait_count >= 1 && p == 0);
-    COVER(verif_wait_count >= 2);
+#if SCN == 1
+    COVER(verif_wait_count >= 1 && p == 0); /* slept, then woken by the refusal */
+    COVER(verif_wait_count == 0 && p == 0);
+#else
+    COVER(verif_wait_count >= 1 && p != 0); /* slept, then woken by a reader */
+#endif
     WITNESS_END();
 #elif SCN == 3
     draw_channel();
